@@ -157,15 +157,30 @@ Resolve(R, L, cid, a) ==
 (* it, or to none."  An address is looked up the way a request from that   *)
 (* address is attributed (Find with an address string is what the          *)
 (* statistics / query-log "ignore" switches use), so for "ip" the answer   *)
-(* is ByAddr.  The statement does not say whether a lookup by the text of  *)
-(* a prefix must find its owner (the code does not): both are admitted, a  *)
-(* third client is not.  Hence a SET of admissible answers.                *)
+(* is ByAddr.  A prefix is an identifier like any other ("lookups by every *)
+(* identifier kind"; the HTTP API documents search "by their IP addresses, *)
+(* CIDRs, MAC addresses, or ClientIDs" and runs on Storage.Find): looked   *)
+(* up by its text it resolves to its owner.  (An earlier version admitted  *)
+(* "none" here; the audit of the property settled it.)  FindSet stays a    *)
+(* SET of admissible answers for uniformity; every set is a singleton now. *)
+(*                                                                         *)
+(* Spellings are not part of an identifier: the letter case of a ClientID  *)
+(* or mac, the host bits of a prefix, the IPv4-mapped IPv6 form            *)
+(* ::ffff:a.b.c.d of an IPv4 address or prefix (it denotes the IPv4 host)  *)
+(* -- on the stored side AND on the lookup side -- are chosen by the       *)
+(* harness; the answers below do not depend on them.                       *)
+(*                                                                         *)
+(* The mac of a DHCP lease comes from the network, not from the registry:  *)
+(* <<"macx", n, 0>> is a link-layer address of a length no client          *)
+(* identifier can have (a DHCPv6 DUID may carry 4 bytes, say).  Nobody     *)
+(* owns it, so it attributes the request to nobody -- like any other mac   *)
+(* that nobody registered.                                                 *)
 (***************************************************************************)
 FindSet(R, L, id) ==
     CASE Kind(id) = "cid" -> {Owner(R, id)}
       [] Kind(id) = "mac" -> {Owner(R, id)}
       [] Kind(id) = "ip"  -> {ByAddr(R, L, id[2])}
-      [] Kind(id) = "net" -> {Owner(R, id), NoClient}
+      [] Kind(id) = "net" -> {Owner(R, id)}
       [] OTHER            -> {NoClient}
 
 (***************************************************************************)
